@@ -118,3 +118,32 @@ Theorem C12_delivered_is_wellformed :
          generate_text s = GOk b t -> wf_gi (b_gi b) = true.
 Proof. exact EndToEndWf.text_wf. Qed.
 Print Assumptions C12_delivered_is_wellformed.
+
+From YG Require Import Lexer YParser Front Pipeline EndToEnd EndToEndWf.
+Close Scope Z_scope.
+Open Scope nat_scope.
+
+(* from the bytes of the grammar file: when the generator refuses a text that parses, the refusal is the front end's (its cases: C12_visit_cases, C12_build_cases) or the productivity test of the table stage on the grammar object the front end delivered *)
+Theorem C12_refusal_from_the_text :
+  forall (s : list Ascii.ascii) (e : front_error),
+         generate_text s = GFront e ->
+         exists a : ast,
+           parse_text s = PAst a /\
+           (front a = inl e \/
+            (exists (b : built) (l : list nat),
+               front a = inr b /\ generate_tables (b_gi b) = inl (EUnproductive l) /\ e = FUnproductive l)).
+Proof. exact EndToEndWf.text_refusal. Qed.
+Print Assumptions C12_refusal_from_the_text.
+
+From YG Require Import Lexer YParser Front Pipeline EndToEnd EndToEndWf.
+Close Scope Z_scope.
+Open Scope nat_scope.
+
+(* the only other refusal of a text that parses and passes the front end: the state limit (C12_state_limit) *)
+Theorem C12_too_many_from_the_text :
+  forall s : list Ascii.ascii,
+         generate_text s = GTooMany ->
+         exists (a : ast) (b : built),
+           parse_text s = PAst a /\ front a = inr b /\ generate_tables (b_gi b) = inl ETooManyStates.
+Proof. exact EndToEndWf.text_too_many. Qed.
+Print Assumptions C12_too_many_from_the_text.
